@@ -94,3 +94,4 @@ _p("C01", assumptions=COMMON_VERUS_ASSUMPTIONS + COMMON_KANI_ASSUMPTIONS, not_co
 _p("C04", assumptions=COMMON_VERUS_ASSUMPTIONS + COMMON_KANI_ASSUMPTIONS, not_covered=[])
 _p("C20", assumptions=COMMON_KANI_ASSUMPTIONS, not_covered=[])
 _p("C12", assumptions=COMMON_KANI_ASSUMPTIONS, not_covered=[])
+_p("C02", assumptions=COMMON_KANI_ASSUMPTIONS, not_covered=[])
